@@ -691,8 +691,10 @@ fn run_c17(sc: &Sc, ctx: &mut Ctx) {
     };
     for (s, l) in sc.blockers.iter() {
         if sc.grown_blockers && *l > 16 {
-            let _ = catch(|| ax.mem_init_zero(*s, 16));
-            let _ = catch(|| ax.mem_resize_section(*s, *l));
+            // (only what was just created is grown: a refused request may share its start with the program image)
+            if matches!(catch(|| ax.mem_init_zero(*s, 16)), Ok(Ok(()))) {
+                let _ = catch(|| ax.mem_resize_section(*s, *l));
+            }
         } else {
             let _ = catch(|| ax.mem_init_zero(*s, *l));
         }
